@@ -13,6 +13,20 @@ set_option linter.unusedSectionVars false
 section
 variable {K : Type} [Field K] [StarRing K] [HasRe K]
 
+theorem autoAdjWith_size (n m : Nat) (inC outC : Bool) (M : Mc K) (y : Vc K) :
+    (autoAdjWith n m inC outC M y).size = n := by
+  unfold autoAdjWith
+  split
+  · rfl
+  · split <;> rfl
+
+/-- closes the size obligations of `Sound` -/
+macro "szt" : tactic =>
+  `(tactic| (intro x; first
+      | rfl
+      | exact autoAdjWith_size _ _ _ _ _ _
+      | (simp only [mkLin_eval, mkLin_adj, mkLin_m, mkLin_n]; first | rfl | exact autoAdjWith_size _ _ _ _ _ _)))
+
 /-! ### dtype facts -/
 
 theorem rt_complex_left {a b : DT} (h : a.isComplex = true) : (resultType a b).isComplex = true := by
@@ -68,6 +82,8 @@ theorem linAddSub_sound (sub : Bool) {a b : Obj K} {Da Db : Mx K}
   have hm := sameShape_m hs
   exact
   { lin := by simp [linAddSub]
+    evSz := by szt
+    adSz := by szt
     pl := by simp [PayloadIs, linAddSub, mkLin]
     ev := by
       intro x i
@@ -120,6 +136,8 @@ theorem linMul_sound {a o : Obj K} {Da : Mx K} (c : Scal K) (ha : Sound a Da)
   · injection h with h; subst h
     exact
     { lin := by simp
+      evSz := by szt
+      adSz := by szt
       pl := by simp [PayloadIs, mkLin]
       ev := by
         intro x i
@@ -149,6 +167,8 @@ theorem linDiv_sound {a o : Obj K} {Da : Mx K} (c : Scal K) (ha : Sound a Da)
   · injection h with h; subst h
     exact
     { lin := by simp
+      evSz := by szt
+      adSz := by szt
       pl := by simp [PayloadIs, mkLin]
       ev := by
         intro x i
@@ -191,6 +211,8 @@ theorem linComp_sound {a b o : Obj K} {Da Db : Mx K} (ha : Sound a Da) (hb : Sou
       injection h with h; subst h
       exact
       { lin := by simp
+        evSz := fun x => ha.evSz _
+        adSz := fun y => hb.adSz _
         pl := by simp [PayloadIs, mkLin]
         ev := by
           intro x i
@@ -227,6 +249,8 @@ theorem conjV_get (k : Nat) (v : Vc K) (i : Nat) :
 /-- `LinearOperator.H` -/
 theorem linH_sound {a : Obj K} {Da : Mx K} (ha : Sound a Da) : Sound (linH a) (matH Da) :=
   { lin := by simp [linH]
+    evSz := fun x => ha.adSz _
+    adSz := fun y => ha.evSz _
     pl := by simp [PayloadIs, linH, mkLin]
     ev := by
       intro x j
@@ -251,6 +275,8 @@ theorem linH_sound {a : Obj K} {Da : Mx K} (ha : Sound a Da) : Sound (linH a) (m
 /-- `LinearOperator.conj` -/
 theorem linConj_sound {a : Obj K} {Da : Mx K} (ha : Sound a Da) : Sound (linConj a) (matConj Da) :=
   { lin := by simp [linConj]
+    evSz := by szt
+    adSz := by szt
     pl := by simp [PayloadIs, linConj, mkLin]
     ev := by
       intro x i
@@ -288,6 +314,8 @@ theorem linT_sound {a : Obj K} {Da : Mx K} (ha : Sound a Da) : Sound (linT a) (m
   · rename_i hc
     exact
     { lin := by simp
+      evSz := by szt
+      adSz := by szt
       pl := by simp [PayloadIs, mkLin]
       ev := by
         intro x j
@@ -324,6 +352,8 @@ theorem linT_sound {a : Obj K} {Da : Mx K} (ha : Sound a Da) : Sound (linT a) (m
       · exact absurd h.inC hc
     exact
     { lin := by simp
+      evSz := fun x => ha.adSz _
+      adSz := fun y => ha.evSz _
       pl := by simp [PayloadIs, mkLin]
       ev := by
         intro x j
@@ -371,6 +401,8 @@ theorem linGram_sound (cfg : Cfg) {a : Obj K} {Da : Mx K} (ha : Sound a Da) :
     · simp [hj]
   exact
   { lin := by simp [linGram]
+    evSz := fun x => ha.adSz _
+    adSz := fun y => ha.adSz _
     pl := by simp [PayloadIs, linGram, mkLin]
     ev := by
       intro x j
